@@ -207,6 +207,8 @@ impl CompilerAction {
 
         output_serializer.serialize(&program, &mut sink)
             .expect("Cannot serialize program to output.");
+        sink.flush()
+            .expect("Cannot write program to output.");
     }
 
     pub fn selected_input(&self) -> Result<NamedSource> {
@@ -250,6 +252,8 @@ impl ParserAction {
             .expect("Cannot serialize AST");
 
         write!(sink, "{}", result)
+            .expect("Cannot write to output");
+        sink.flush()
             .expect("Cannot write to output");
     }
 
